@@ -178,6 +178,33 @@ impl Check for C11 {
                 }
             });
         }
+        // (i-3) shears and rotations with decimal entries *and* a translation, vertices whose images
+        // lie on the quarter-pixel grid: all three terms of x' = x*m11 + y*m21 + m31 are non-zero, so
+        // the order in which they are summed decides the cell of a vertex
+        {
+            let ts: Vec<Xf> = vec![[1., 0., 0.45, 1., 0.15, 0.], [0.6, 0.8, -0.8, 0.6, 20., 3.], [1., 0.3, 0., 1., 0., 0.35], [0.8, -0.6, 0.6, 0.8, 2.5, 14.], [1.1, 0., 0.7, 0.9, -3.3, 1.7], [0.28, 0.96, -0.96, 0.28, 30.25, 2.75]];
+            let dxs = [10.0f64, 13.25, 16.5, 19.75, 22.0];
+            let dys = [7.0f64, 11.25, 19.5, 27.0];
+            run.bound("decimal shears and rotations with translations", format!("{} transforms x all triangles over 20 user points whose exact images are the quarter-grid points {:?} x {:?} x 2 aa on 40x40: same pixels as the pre-transformed path", ts.len(), dxs, dys));
+            run.par(ts.len() * 20, |s, l| {
+                let xf = ts[s / 20];
+                let inv = crate::model::img::mat_inverse(&crate::model::img::xf64(&xf)).unwrap();
+                let pts: Vec<(f32, f32)> = dys.iter().flat_map(|y| dxs.iter().map(move |x| (*x, *y))).map(|(x, y)| { let u = crate::model::img::mat_apply(&inv, x, y); (u.0 as f32, u.1 as f32) }).collect();
+                let i0 = s % 20;
+                for i1 in i0 + 1..pts.len() {
+                    for i2 in i1 + 1..pts.len() {
+                        for aa in [true, false] {
+                            let p = PathSpec::poly(&[pts[i0], pts[i1], pts[i2]]);
+                            let o = Opts { mode: BlendMode::SrcOver, alpha: 1.0, aa };
+                            let a = Scene { w: 40, h: 40, dst: Dst::Zero, ops: vec![Op::SetTransform(xf), Op::Fill(p.clone(), white.clone(), o)] };
+                            let pre = spec_from_path(&p.build().transform(&xf_to(&xf)));
+                            let b = Scene { w: 40, h: 40, dst: Dst::Zero, ops: vec![Op::Fill(pre, white.clone(), o)] };
+                            one(run, 700 + s, l, "fill-under-T-vs-pretransformed-path", a, b, false);
+                        }
+                    }
+                }
+            });
+        }
         // (i') invertible transforms with a tiny determinant (only a non-invertible T draws nothing):
         // user coordinates k times larger under scale 1/k
         let tiny: Vec<(f32, f32)> = vec![(4096., 4096.), (1., 1e7), (1e7, 1.), (1e4, 1e4), (1e-3, 1e9), (65536., 65536.)];
@@ -376,7 +403,7 @@ impl Check for C11 {
         // including both shears, whose inverse composed with the source transform has integer translation)
         let mut txf: Vec<Xf> = XFS.iter().copied().filter(|x| xf_to(x).determinant() != 0.0).collect();
         txf.extend([[1., 0.5, 0., 1., 0., 0.], [1., 0., 1., 1., 2., 0.], [1., -1., 0., 1., 0., 3.], [1., 0., -0.25, 1., 1., 1.]]);
-        run.bound("sources-in-user-space", format!("{} invertible transforms (4 shears with unit diagonal) x (2 images x pad/repeat x nearest/bilinear x 3 source transforms x 2 alphas; 4 gradients x 2 alphas)", txf.len()));
+        run.bound("sources-in-user-space", format!("{} invertible transforms (4 shears with unit diagonal) x (2 images x pad/repeat x nearest/bilinear x 3 source transforms x 2 alphas; draw_image_at x 4 positions and draw_image_with_size_at x 2 x 2 images x 2 alphas; 4 gradients x 2 alphas)", txf.len()));
         run.par(txf.len(), |ti, l| {
             let t = txf[ti];
             let big = PathSpec::rect(-100., -100., 200., 200.);
@@ -413,6 +440,37 @@ impl Check for C11 {
                                     }
                                 }
                                 }
+                            }
+                        }
+                    }
+                }
+            }
+            // draw_image_at / draw_image_with_size_at are images fixed in user space too (bilinear,
+            // pad): at whole and fractional positions, at their own size and resized
+            for (iw, ih) in [(3, 2), (4, 4)] {
+                let data = image_of(iw, ih, &DISTINCT16, 2);
+                for alpha in [1.0f32, 0.5] {
+                    let o = Opts { mode: BlendMode::Src, alpha, aa: true };
+                    let mut draws = Vec::new();
+                    for (x, y) in [(0.0f32, 0.0f32), (2.0, 1.0), (1.5, 0.25), (-1.0, 3.0)] {
+                        draws.push(Op::DrawImageAt(x, y, iw, ih, data.clone(), o));
+                    }
+                    draws.push(Op::DrawImageSize(iw as f32, ih as f32, 1.0, 2.0, iw, ih, data.clone(), o));
+                    draws.push(Op::DrawImageSize(2.0 * iw as f32, ih as f32, 0.0, 1.0, iw, ih, data.clone(), o));
+                    for d in draws {
+                        let scene = Scene { w: S, h: S, dst: Dst::White, ops: vec![Op::SetTransform(t), d] };
+                        l.states += 1;
+                        l.transitions += 2;
+                        l.traces += 1;
+                        l.evals += 1;
+                        match super::c13::eval(&scene) {
+                            Ok((h, _, _)) => {
+                                l.outcome(h);
+                                l.nontrivial += 1;
+                            }
+                            Err(mut v) => {
+                                v.sig = format!("source-in-user-space/{}", v.sig);
+                                run.report(6000 + ti, v)
                             }
                         }
                     }
@@ -518,6 +576,12 @@ impl Check for C11 {
                 _ => None,
             };
             let _ = scene.ops.len();
+            if matches!(scene.ops.last(), Some(Op::DrawImageAt(..)) | Some(Op::DrawImageSize(..))) {
+                return Ok(super::c13::eval(&scene).err().map(|mut v| {
+                    v.sig = format!("source-in-user-space/{}", v.sig);
+                    v
+                }));
+            }
             match src_kind {
                 Some(SrcSpec::Image { .. }) => Ok(super::c13::eval(&scene).err().map(|mut v| {
                     v.sig = format!("source-in-user-space/{}", v.sig);
